@@ -277,8 +277,24 @@ def translate_fn(fn, lean_name, int_params, k_params, tr_kwargs=None, tuple_func
 ABC_TUPLE = {'recurrence_abc': ('abc', 3)}
 
 
+def _forceable(g):
+    """testing aid: VERIF_FORCE_FALLBACK=name1,name2 makes those items untranslatable (exercises the fallback path)"""
+    import os
+    forced = set(filter(None, os.environ.get('VERIF_FORCE_FALLBACK', '').split(',')))
+    orig = g.item
+
+    def item(name, source, node_fn, build, fallback):
+        if name in forced or 'ALL' in forced:
+            def build():      # noqa
+                raise Untranslatable('forced by VERIF_FORCE_FALLBACK')
+        return orig(name, source, node_fn, build, fallback)
+    g.item = item
+    return g
+
+
 def generate(repo):
     g = Gen('C07', imports=['PrysmVerif.PyPrelude', 'PrysmVerif.Model.C07'], header=HDR)
+    g = _forceable(g)
     jac, _ = load(repo, 'prysm/polynomials/jacobi.py')
     che, _ = load(repo, 'prysm/polynomials/cheby.py')
     leg, _ = load(repo, 'prysm/polynomials/legendre.py')
